@@ -22,6 +22,7 @@ import (
 	"strconv"
 	"strings"
 	"sync"
+	"sync/atomic"
 	"time"
 
 	"verif/internal/core"
@@ -145,6 +146,7 @@ func worker(a []string) int {
 		timeout *= 2
 	}
 	sum := summary{Counters: map[string]int64{}}
+	shardStart := time.Now()
 	var hbuf []byte
 	for idx := 0; idx < n; idx++ {
 		if solo >= 0 {
@@ -192,6 +194,12 @@ func worker(a []string) int {
 			hbuf = binary.LittleEndian.AppendUint64(hbuf, h)
 		}
 		hf.Write(hbuf)
+		if solo < 0 && (len(sum.Viols) >= 8 || (len(sum.Viols) >= 2 && time.Since(shardStart) > 2*time.Minute)) {
+			// the run is decided; on a tree that violates the property the remaining cases
+			// would only add more of the same (and, for hangs, minutes each)
+			sum.Notes = append(sum.Notes, fmt.Sprintf("shard %d stopped after %d violations (case %d of %d)", shard, len(sum.Viols), idx, n))
+			break
+		}
 	}
 	hf.Close()
 	sum.Done = true
@@ -234,6 +242,14 @@ func attribute(stack string) (lib bool, frame string) {
 func runCase(p *core.Prop, seed uint64, tier, variant string, idx int, timeout time.Duration, jf *os.File) *core.Out {
 	out := core.NewOut()
 	done := make(chan struct{})
+	lastBeat := time.Now().UnixNano()
+	beatTimeout := time.Duration(p.BeatTimeoutS) * time.Second
+	if variant != "plain" {
+		beatTimeout *= 3
+	}
+	if os.Getenv("WSVERIF_SOLO") != "" {
+		beatTimeout *= 2
+	}
 	go func() {
 		defer close(done)
 		defer func() {
@@ -258,14 +274,31 @@ func runCase(p *core.Prop, seed uint64, tier, variant string, idx int, timeout t
 			}
 		}()
 		ctx := &core.Ctx{Seed: seed, Tier: tier, Variant: variant, Prop: p.ID, Idx: idx, R: gen.For(seed, p.ID+"/"+variant, idx)}
+		ctx.Beat = func() { atomic.StoreInt64(&lastBeat, time.Now().UnixNano()) }
+		out.OnEval = ctx.Beat
 		p.Run(ctx, out)
 	}()
 	t := time.NewTimer(timeout)
 	defer t.Stop()
-	select {
-	case <-done:
-	case <-t.C:
-		fmt.Fprintf(os.Stderr, "WATCHDOG case %d exceeded %v\n", idx, timeout)
+	tick := time.NewTicker(time.Second)
+	defer tick.Stop()
+	fired := ""
+	for fired == "" {
+		select {
+		case <-done:
+			return out
+		case <-t.C:
+			fired = fmt.Sprintf("exceeded %v", timeout)
+		case <-tick.C:
+			if beatTimeout > 0 {
+				if d := time.Since(time.Unix(0, atomic.LoadInt64(&lastBeat))); d > beatTimeout {
+					fired = fmt.Sprintf("made no progress for %v (one execution normally takes milliseconds)", d.Round(time.Second))
+				}
+			}
+		}
+	}
+	{
+		fmt.Fprintf(os.Stderr, "WATCHDOG case %d %s\n", idx, fired)
 		pprof.Lookup("goroutine").WriteTo(os.Stderr, 2)
 		if jf != nil {
 			jf.WriteAt([]byte(fmt.Sprintf("%-12d HANG", idx)), 0)
@@ -348,6 +381,20 @@ func runCheck(id, tier string) int {
 	var raceBlocks []string
 	casesTotal := 0
 	variants := p.Variants(tier)
+	if only := strings.Fields(os.Getenv("WSVERIF_ONLY_VARIANTS")); len(only) > 0 {
+		// selftests only (regression over seeded changes): a restricted run decides less
+		var keep []string
+		for _, v := range variants {
+			for _, o := range only {
+				if v == o {
+					keep = append(keep, v)
+				}
+			}
+		}
+		if len(keep) > 0 {
+			variants = keep
+		}
+	}
 	for _, variant := range variants {
 		bin := filepath.Join(bindir, variant, "wsverif")
 		if _, err := os.Stat(bin); err != nil {
@@ -383,6 +430,16 @@ func runCheck(id, tier string) int {
 		wg.Wait()
 		if variant == "race" {
 			raceBlocks = append(raceBlocks, collectRace(work)...)
+		}
+		hung := false
+		for _, v := range agg.Viols {
+			hung = hung || v.Signature == "hang"
+		}
+		if hung && variant != variants[len(variants)-1] {
+			// the sanitizer builds have three times the watchdog period; a confirmed hang
+			// already decides the run
+			agg.Notes = append(agg.Notes, "remaining build variants skipped after a confirmed hang in variant "+variant)
+			break
 		}
 	}
 
@@ -614,6 +671,10 @@ func superviseShard(p *core.Prop, bin, tier string, seed uint64, st *shardState,
 				lib := strings.Contains(stderr2, "github.com/gorilla/websocket.")
 				if lib {
 					res.sum.Viols = append(res.sum.Viols, core.Violation{Signature: "hang", What: "case hangs inside a library call, twice, the second time in isolation", Detail: tail(stderr2, 6000), Idx: idx, Variant: st.variant})
+					// a confirmed hang costs two watchdog periods: one per shard is enough
+					// to decide; the rest of the shard is abandoned (said in the notes)
+					res.sum.Notes = append(res.sum.Notes, fmt.Sprintf("shard %d/%s abandoned after the confirmed hang of case %d", st.shard, st.variant, idx))
+					return res
 				} else {
 					res.harness = append(res.harness, fmt.Sprintf("case %d hangs outside the library: %s", idx, tail(stderr2, 3000)))
 				}
